@@ -2,6 +2,7 @@ package main
 
 import (
 	"fmt"
+	"go/ast"
 	"go/token"
 	"go/types"
 	"os"
@@ -336,7 +337,7 @@ func (x *Exec) entryState(cut *ssa.BasicBlock) *State {
 	if c := fx.contract; c != nil {
 		sc := x.specCtx(st, st.old, st.old, x.paramNames(st, c))
 		for _, r := range c.Requires {
-			v := sc.evalBool(r.E)
+			v := sc.evalHyp(r.E)
 			st.assume(v)
 		}
 	}
@@ -367,7 +368,7 @@ func (x *Exec) entryState(cut *ssa.BasicBlock) *State {
 			if ls := c.Loops[ord]; ls != nil {
 				sc := x.loopSpecCtx(st, cut, nil)
 				for _, inv := range ls.Invs {
-					st.assume(sc.evalBool(inv.E))
+					st.assume(sc.evalHyp(inv.E))
 				}
 				if ls.Decr != nil {
 					st.ghostV["decr0"] = sc.eval(ls.Decr.E)
@@ -420,7 +421,7 @@ func (x *Exec) checkPost(r Ret) {
 	sc := x.specCtx(st, st.heap, st.old, names)
 	k := 0
 	for _, en := range c.Ensures {
-		for _, cj := range en.E.conjuncts() {
+		for _, cj := range x.eng.cs.goals(en.E) {
 			k++
 			g := sc.evalBool(cj)
 			key := fmt.Sprintf("post#%d", k)
@@ -565,7 +566,7 @@ func (x *Exec) checkInvariants(st *State, from, hdr *ssa.BasicBlock, ord int) {
 	}
 	k := 0
 	for _, inv := range ls.Invs {
-		for _, cj := range inv.E.conjuncts() {
+		for _, cj := range x.eng.cs.goals(inv.E) {
 			k++
 			g := sc.evalBool(cj)
 			key := fmt.Sprintf("loop%d.inv#%d.%s", ord, k, phase)
@@ -625,6 +626,13 @@ func (x *Exec) lookupLocal(st *State, name string, at *ssa.BasicBlock) (Value, b
 			case *ssa.Alloc:
 				if v.Comment == name {
 					best = v
+				}
+			case *ssa.DebugRef:
+				if id, ok := v.Expr.(*ast.Ident); ok && id.Name == name && !v.IsAddr {
+					if _, isPhi := v.X.(*ssa.Phi); isPhi && v.X.(*ssa.Phi).Block() == at {
+						continue
+					}
+					best = v.X
 				}
 			}
 		}
